@@ -265,7 +265,9 @@ def run_case(case):
             compare(h(*[sc[x] for x in names[:kpos]], **{x: sc[x] for x in rest}), exp_sc, out, res, f"allow_args({src.splitlines()[0]}) with {kpos} positional", add)
             add("wrapper_calls")
             for bad, label in (((lambda: h(*[sc[x] for x in names], 1.0)), "too_many"),
-                               ((lambda: h(*[sc[x] for x in names[:-1]])), "too_few")):
+                               ((lambda: h(*[sc[x] for x in names[:-1]])), "too_few"),
+                               ((lambda: h(*[sc[x] for x in names[:-1]], zzz=sc[names[-1]])), "one_unknown_keyword_right_count"),
+                               ((lambda: h(**{("zzz" if j == 0 else x): sc[x] for j, x in enumerate(names)})), "first_keyword_unknown")):
                 try:
                     bad()
                     res["violations"].append({"key": f"allow_args_{label}_accepted", "what": f"allow_args wrapper accepted a call with {label} arguments"})
